@@ -209,3 +209,13 @@ Proof.
     rewrite <- E2. apply nth_mod_in. discriminate. }
   rewrite F in H. apply filter_In in H. destruct H as [_ H]. apply mem_In; auto.
 Qed.
+
+(* ---------------------------------------------------------------- millisecond registration overloads *)
+Lemma ms_to_us_exact ms : ms_to_us ms = 1000 * ms.
+Proof. unfold ms_to_us. pose proof (N.div_mod ms 1000). lia. Qed.
+Lemma ms_to_us_args_fit ms : ms < 4294967296 -> ms / 1000 < 2147483648 /\ ms mod 1000 * 1000 < 2147483648.
+Proof.
+  intros H. split.
+  - apply N.div_lt_upper_bound; lia.
+  - pose proof (N.mod_upper_bound ms 1000). lia.
+Qed.
